@@ -1363,6 +1363,7 @@ func rulePAIR5(w *World) []Ob {
 		// colorize increments exactly one counter, chosen by isFile
 		if fname(fn) == "colorize" && strings.Contains(recvTypeName(fn), "olorize") {
 			var isFile *ssa.Call
+			var nextCalls []*ssa.Call
 			nexts := map[string]bool{}
 			allInstrs(fn, func(in ssa.Instruction) {
 				c, ok := in.(*ssa.Call)
@@ -1373,6 +1374,7 @@ func rulePAIR5(w *World) []Ob {
 				case "isFile":
 					isFile = c
 				case "next":
+					nextCalls = append(nextCalls, c)
 					// the counter picked into a local first: next() on a phi of the two counters, one per side of isFile
 					if ph, isPhi := c.Common().Args[0].(*ssa.Phi); isPhi && isFile != nil {
 						for i, e := range ph.Edges {
@@ -1421,8 +1423,10 @@ func rulePAIR5(w *World) []Ob {
 			construct := "one counter per node, chosen by isFile"
 			if isFile != nil && p.Cfg.Name == "W" && wOnlyFunc(w, isFile.Common().StaticCallee()) {
 				l.bad(fid, construct, p.InstrPos(isFile), "the variant decides what a file is with a predicate of its own ("+p.FuncID(isFile.Common().StaticCallee())+") instead of the one compiled into both builds: the 'N directories, M files' line of the dry-run report is no longer the default build's for every extension list", "colorize")
+			} else if mn, mx := pathCallCounts(fn, nextCalls); isFile != nil && nexts["fileCounter@true"] && nexts["dirCounter@false"] && len(nexts) == 2 && (mn != 1 || mx != 1) {
+				l.bad(fid, construct, p.Pos(fn.Pos()), fmt.Sprintf("a route through colorize advances a counter %d time(s), another %d: a node that is printed (and that the real run creates) is not counted exactly once, so the 'N directories, M files' line no longer predicts the real run", mn, mx), "colorize")
 			} else if isFile != nil && nexts["fileCounter@true"] && nexts["dirCounter@false"] && len(nexts) == 2 {
-				l.ok(fid, construct, p.Pos(fn.Pos()), "fileCounter.next() on the isFile side, dirCounter.next() on the other", true, "colorize")
+				l.ok(fid, construct, p.Pos(fn.Pos()), "fileCounter.next() on the isFile side, dirCounter.next() on the other, exactly one of them on every route through colorize", true, "colorize")
 			} else {
 				l.bad(fid, construct, p.Pos(fn.Pos()), "colorize does not increment fileCounter exactly on the isFile side and dirCounter exactly on the other (found "+strings.Join(sortedKeys(nexts), ", ")+")", "colorize")
 			}
